@@ -40,6 +40,32 @@ const Prelude = `
 (assert (forall ((a BSeq) (b BSeq) (n Int)) (! (=> (= n (+ (slen a) (slen b))) (= (ssub (scat a b) (slen a) n) b)) :pattern ((ssub (scat a b) (slen a) n)))))
 (assert (forall ((a BSeq) (b BSeq)) (! (= (ssub (scat a b) 0 (slen a)) a) :pattern ((ssub (scat a b) 0 (slen a))))))
 (assert (forall ((a BSeq)) (! (and (= (scat a sempty) a) (= (scat sempty a) a)) :pattern ((scat a sempty)) :pattern ((scat sempty a)))))
+(declare-fun satoff (BSeq Int Int) Int)
+(assert (forall ((b BSeq) (o Int) (i Int)) (! (= (satoff b o i) (sat b (+ o i))) :pattern ((satoff b o i)))))
+; immutable lists of strings
+(declare-sort SList 0)
+(declare-fun llen (SList) Int)
+(declare-fun lat (SList Int) BSeq)
+(declare-const lnil SList)
+(declare-fun lapp (SList SList) SList)
+(declare-fun lsub (SList Int Int) SList)
+(declare-fun lunit (BSeq) SList)
+(declare-fun lupd (SList Int BSeq) SList)
+(declare-fun leq (SList SList) Bool)
+(assert (forall ((l SList)) (! (>= (llen l) 0) :pattern ((llen l)))))
+(assert (= (llen lnil) 0))
+(assert (forall ((l SList)) (! (=> (= (llen l) 0) (= l lnil)) :pattern ((llen l)))))
+(assert (forall ((x BSeq)) (! (and (= (llen (lunit x)) 1) (= (lat (lunit x) 0) x)) :pattern ((lunit x)))))
+(assert (forall ((a SList) (b SList)) (! (= (llen (lapp a b)) (+ (llen a) (llen b))) :pattern ((lapp a b)))))
+(assert (forall ((a SList) (b SList) (i Int)) (! (= (lat (lapp a b) i) (ite (< i (llen a)) (lat a i) (lat b (- i (llen a))))) :pattern ((lat (lapp a b) i)))))
+(assert (forall ((s SList) (a Int) (b Int)) (! (=> (and (<= 0 a) (<= a b) (<= b (llen s))) (= (llen (lsub s a b)) (- b a))) :pattern ((lsub s a b)))))
+(assert (forall ((s SList) (a Int) (b Int) (i Int)) (! (=> (and (<= 0 a) (<= a b) (<= b (llen s)) (<= 0 i) (< i (- b a))) (= (lat (lsub s a b) i) (lat s (+ a i)))) :pattern ((lat (lsub s a b) i)))))
+(assert (forall ((s SList) (i Int) (v BSeq)) (! (= (llen (lupd s i v)) (llen s)) :pattern ((lupd s i v)))))
+(assert (forall ((s SList) (i Int) (v BSeq) (j Int)) (! (= (lat (lupd s i v) j) (ite (= i j) v (lat s j))) :pattern ((lat (lupd s i v) j)))))
+(assert (forall ((a SList) (b SList)) (! (= (leq a b) (and (= (llen a) (llen b)) (forall ((i Int)) (! (=> (and (<= 0 i) (< i (llen a))) (= (lat a i) (lat b i))) :pattern ((lat a i)) :pattern ((lat b i)))))) :pattern ((leq a b)))))
+(assert (forall ((a SList) (b SList)) (! (=> (leq a b) (= a b)) :pattern ((leq a b)))))
+(assert (forall ((s SList)) (! (= (lsub s 0 (llen s)) s) :pattern ((lsub s 0 (llen s))))))
+(assert (forall ((a SList) (b SList) (c SList)) (! (= (lapp (lapp a b) c) (lapp a (lapp b c))) :pattern ((lapp (lapp a b) c)))))
 ; Go's truncated division / remainder on top of SMT-LIB's Euclidean ones
 (define-fun gdiv ((a Int) (b Int)) Int (ite (>= a 0) (div a b) (- (div (- a) b))))
 (define-fun gmod ((a Int) (b Int)) Int (- a (* b (gdiv a b))))
